@@ -20,8 +20,7 @@ import itertools
 
 import numpy as np
 from .common import Report
-from .c02_index_bijection import (norm, eq, eq_seq, obs, is_intlike, is_tree_order, all_distinct, Sink, ns_ints_to_dt, native, has_pydate,
-                                  ctor_objs, rows_array, tree_dict, is_product)
+from .c02_index_bijection import norm, eq, eq_seq, obs, is_intlike, is_tree_order, Sink, ns_ints_to_dt, native, ctor_objs, tree_dict, is_product
 
 PID = 'C05'
 D = datetime.date
@@ -99,7 +98,7 @@ def tree_cases(tier):
             if tier == 'quick':
                 chosen = [(pats[si % len(pats)], si % 2), (pats[(si + 1 + si // len(pats)) % len(pats)], (si + 1) % 2)] if depth == 2 else [(pats[si % len(pats)], si % 2)]
             else:
-                chosen = [(p, s) for p in pats for s in (0, 1)] if depth == 2 else [(pats[si % len(pats)], 0), (pats[(si + 1) % len(pats)], 1)]
+                chosen = [(p, s) for p in pats for s in (0, 1)] if depth == 2 else [(pats[si % len(pats)], si % 2)]
             seen = set()
             for pat, shift in chosen:
                 if (pat, shift) in seen:
@@ -288,6 +287,7 @@ def views(sink, ih, rows, rp, area):
     ok &= bool(seq('values_at_depth-multi', lambda: ih.values_at_depth(list(range(depth))), rows, lambda v: [tuple(r) for r in v]))
     ok &= bool(seq('reversed', lambda: list(reversed(ih)), rows[::-1]))
     ok &= bool(seq('iloc', lambda: [ih.iloc[i] for i in range(n)], rows))
+    ok &= bool(seq('iloc-negative', lambda: [ih.iloc[i - n] for i in range(n)], rows))
     ok &= bool(seq('positions', lambda: ih.positions, list(range(n))))
     ok &= bool(seq('iter_label', lambda: list(ih.iter_label()), rows))
     ok &= bool(seq('levels-values', lambda: ih._levels.values, rows, lambda v: [tuple(r) for r in v]))
@@ -454,7 +454,7 @@ def mask_options(n, level):
 def selector_combos(rows, pattern, tier):
     depth = len(rows[0])
     n = len(rows)
-    level = {2: 0, 3: 1, 4: 2}[depth] if tier == 'quick' else {2: 0, 3: 0, 4: 1}[depth]
+    level = {2: 0, 3: 1, 4: 2}[depth] if tier == 'quick' else {2: 0, 3: 1, 4: (1 if n <= 6 else 2)}[depth]
     per = [depth_options(rows, d, pattern, level) for d in range(depth)]
     per[-1] = per[-1] + mask_options(n, level)
     for combo in itertools.product(*per):
@@ -522,21 +522,21 @@ def check_selectors(rep, sink, ih, rows, pattern, rp, tier, containers=True, str
         if not containers:
             continue
         exp_rows = [rows[p] for p in E]
-        if ser is not None:
+        if ser is not None and (ci % 2 == 0 or stride > 1):
             o = obs(lambda: ser.loc[key])
             container_check(sink, o, [p * 10 + 1 for p in E], exp_rows, 'series', sel, srp, rows)
-            if ci % 4 == 0:
+            if ci % 8 == 0:
                 o = obs(lambda: ser[key])
                 container_check(sink, o, [p * 10 + 1 for p in E], exp_rows, 'series-getitem', sel, srp, rows)
-        if frm is not None and ci % 3 == 0:
+        if frm is not None and ci % 5 == 0:
             o = obs(lambda: frm.loc[key])
             container_check(sink, o, [[2 * p, 2 * p + 1] for p in E], exp_rows, 'frame-rows', sel, srp, rows)
             o = obs(lambda: frm.loc[key, 'y'])
             container_check(sink, o, [2 * p + 1 for p in E], exp_rows, 'frame-rows-col', sel, srp, rows)
-        if frc is not None and ci % 5 == 0:
+        if frc is not None and ci % 7 == 0:
             o = obs(lambda: frc.loc[:, key])
             container_check(sink, o, [[p, n + p] for p in E], exp_rows, 'frame-columns', sel, srp, rows, axis=1)
-            if ci % 10 == 0:
+            if ci % 14 == 0:
                 o = obs(lambda: frc[key])
                 container_check(sink, o, [[p, n + p] for p in E], exp_rows, 'frame-getitem-columns', sel, srp, rows, axis=1)
 
@@ -719,7 +719,7 @@ def eval_tree(rep, case, tier, only=None):
             continue
         check_whole_key(rep, ih, model, rp)
         ri = applicable.index(route)
-        stride = 1 if (route == 'from_labels' or tier != 'quick') else (5 if route in full_sel else 29)
+        stride = 1 if route == 'from_labels' else ((9 if route in full_sel else 59) if tier == 'quick' else (2 if route in full_sel else 7))
         check_selectors(rep, rep, ih, model, pattern, rp, tier, containers=True, stride=stride, offset=ri + salt)
     if only is None or only.get('route') == 'non-tree-order':
         eval_non_tree(rep, rows, pattern, base_rp)
@@ -740,7 +740,7 @@ def eval_tree(rep, case, tier, only=None):
             if not views(rep, g, rows, rp, 'go-views'):
                 continue
             check_whole_key(rep, g, rows, rp)
-            check_selectors(rep, rep, g, rows, pattern, rp, tier, containers=True, stride=1 if tier != 'quick' else (3 if mine else 29), offset=vi + salt)
+            check_selectors(rep, rep, g, rows, pattern, rp, tier, containers=True, stride=((5 if mine else 59) if tier == 'quick' else (1 if mine else 7)), offset=vi + salt)
     eval_invalid_appends(rep, rows, pattern, base_rp, only)
 
 
@@ -826,7 +826,7 @@ def run(repo, task):
     tier = task.get('tier', 'quick')
     rep = Rep('C05-hierarchy', task, rule=RULE,
               bound=('all 39 depth-2 shapes x 2 label patterns, 45 depth-3 shapes, 6 depth-4 shapes; <= 13 x 13 selector options at depth 2, 6-8 per depth at depth 3, 4-6 at depth 4'
-                     if tier == 'quick' else 'all 39 depth-2 shapes x 12 label patterns, 350+ depth-3 shapes x 2 patterns, 31 depth-4 shapes; rich selector options at depth 2-3'))
+                     if tier == 'quick' else 'all 39 depth-2 shapes x 12 label patterns, 417 depth-3 shapes, 31 depth-4 shapes; <= 13 x 17 selector options at depth 2, 6-8 per depth at depth 3, 4-8 at depth 4'))
     rep.assumptions.add('a label slice at a level is only demanded when both end points exist in every node the outer selectors reach (otherwise LocInvalid is raised)')
     rep.assumptions.add('the nested order (outer selectors first) is taken as the meaning of "a list selector orders the matches of its level by the list"')
     import json
